@@ -41,7 +41,11 @@ def get_func_in_module(module: str, qualname: str) -> Callable[..., Any]:
             raise InvalidTypeError(f"Property {module}.{qualname} is missing getter")
     elif cached_property and isinstance(func, cached_property):
         func = func.func
-    elif not isinstance(func, (types.FunctionType, types.BuiltinFunctionType)):
+    elif not isinstance(func, types.FunctionType):
+        # That includes builtins: the tracer only sees calls of Python functions,
+        # so a name that is bound to a builtin now (`from builtins import getattr`)
+        # is not the function the trace was recorded for, and often has no
+        # signature to build a stub from.
         raise InvalidTypeError(
             f"{module}.{qualname} is of type '{type(func)}', not function."
         )
